@@ -41,6 +41,7 @@ class Ctx:
         self.samples = []
         self.evaluations = 0
         self._cur = (None, None)
+        self.shard, self.nshards = 0, 1
 
     def count(self, name, n=1):
         self.counters[name] = self.counters.get(name, 0) + n
@@ -122,6 +123,7 @@ def worker_main(argv):
     mod = load(pid)
     plan = mod.plan(tier)
     ctx = Ctx()
+    ctx.shard, ctx.nshards = shard, nshards
     curfd = os.open(out + ".cur", os.O_WRONLY | os.O_CREAT | os.O_TRUNC, 0o644)
     code = 0
     try:
